@@ -2,30 +2,34 @@
 import GnoVerif.Spec.C48
 namespace GnoVerif.C48
 
-theorem one_shl_eq (k : Nat) : ((1 : Word) <<< k) = BitVec.twoPow 64 k := by
+theorem one_shl_eq {w : Nat} (k : Nat) : ((1 : BitVec w) <<< k) = BitVec.twoPow w k := by
   rw [BitVec.twoPow_eq]; rfl
 
-theorem wordBit_eq (e : Word) (k : Nat) (hk : k < 64) : wordBit e k = e.getLsbD k := by
-  unfold wordBit
+/-- `e & (1 << k) > 0` tests bit `k` -/
+theorem bitTest_eq {w : Nat} (e : BitVec w) (k : Nat) (hk : k < w) :
+    decide ((e &&& ((1 : BitVec w) <<< k)) > 0) = e.getLsbD k := by
   rw [one_shl_eq, BitVec.and_twoPow]
   by_cases h : e.getLsbD k
   · simp only [h, if_true]
-    have : (0 : Word) < BitVec.twoPow 64 k := by
+    have : (0 : BitVec w) < BitVec.twoPow w k := by
       rw [BitVec.lt_def, BitVec.toNat_twoPow_of_lt hk]
       exact Nat.two_pow_pos k
     simpa using this
   · simp [h]
 
-theorem getLsbD_one_shl (k j : Nat) (hk : k < 64) :
-    ((1 : Word) <<< k).getLsbD j = decide (k = j) := by
+theorem wordBit_eq (e : Word) (k : Nat) (hk : k < 64) : wordBit e k = e.getLsbD k :=
+  bitTest_eq e k hk
+
+theorem getLsbD_one_shl {w : Nat} (k j : Nat) (hk : k < w) :
+    ((1 : BitVec w) <<< k).getLsbD j = decide (k = j) := by
   rw [one_shl_eq, BitVec.getLsbD_twoPow]; simp [hk]
 
-theorem getLsbD_setBit (e : Word) (k j : Nat) (hk : k < 64) :
-    (e ||| ((1 : Word) <<< k)).getLsbD j = (e.getLsbD j || decide (k = j)) := by
+theorem getLsbD_setBit {w : Nat} (e : BitVec w) (k j : Nat) (hk : k < w) :
+    (e ||| ((1 : BitVec w) <<< k)).getLsbD j = (e.getLsbD j || decide (k = j)) := by
   rw [BitVec.getLsbD_or, getLsbD_one_shl _ _ hk]
 
-theorem getLsbD_clearBit (e : Word) (k j : Nat) (hk : k < 64) (hj : j < 64) :
-    (e &&& ~~~((1 : Word) <<< k)).getLsbD j = (e.getLsbD j && !decide (k = j)) := by
+theorem getLsbD_clearBit {w : Nat} (e : BitVec w) (k j : Nat) (hk : k < w) (hj : j < w) :
+    (e &&& ~~~((1 : BitVec w) <<< k)).getLsbD j = (e.getLsbD j && !decide (k = j)) := by
   rw [BitVec.getLsbD_and, BitVec.getLsbD_not, getLsbD_one_shl _ _ hk]; simp [hj]
 
 theorem getLsbD_lt (e : Word) (j : Nat) (h : e.getLsbD j = true) : j < 64 := by
@@ -38,7 +42,7 @@ theorem getLsbD_lt (e : Word) (j : Nat) (h : e.getLsbD j = true) : j < 64 := by
 theorem getLsbD_mask (k j : Nat) (hk : k ≤ 64) :
     (((1 : Word) <<< k) - 1).getLsbD j = decide (j < k) := by
   have h1 : (((1 : Word) <<< k) - 1).toNat = 2 ^ k - 1 := by
-    rw [one_shl_eq, BitVec.toNat_sub, BitVec.toNat_twoPow_eq_ite]
+    rw [one_shl_eq (w := 64), BitVec.toNat_sub, BitVec.toNat_twoPow_eq_ite]
     by_cases hk' : k < 64
     · simp only [hk', if_true]
       have : 2 ^ k ≤ 2 ^ 64 := Nat.pow_le_pow_right (by omega) (by omega)
